@@ -7,7 +7,8 @@
 import hashlib, json, os, struct
 from vlib.common import Hex, OUT
 
-FP = ["lib/comdoc:", "lib/redblack:", "lib/authenticode:"]
+FP = ["lib/comdoc:", "lib/redblack:"] + ["lib/authenticode:." + f for f in ("sortMsiFiles", "hashMsiDir", "prehashMsiDir", "prehashMsiDirent", "MsiToTar",
+      "msiToTarDir", "DigestMsiTar", "DigestMSI", "InsertMSISignature", "msiDecodeName")]
 
 # Genuine defects of relic found by this check, awaiting the maintainer's decision (fix: commit or known_findings.json).
 # While a key is listed here its reproduction is printed as PENDING-FINDING and does not fail the check; any other key does.
